@@ -144,7 +144,7 @@ def generate(seed, tier, batch):
     nsched = 6 if not big else 10
     scheds = [{"mode": "native"}, {"mode": "far"}, {"mode": "near"}] + [{"mode": "random", "k": i} for i in range(nsched - 3)]
     scheds.append({"mode": "enum", "cap": 60 if not big else 200})
-    return {"kind": "circuit", "n": n, "ops": ops, "mark": mark, "schedules": scheds, "sseed": seed}
+    return {"kind": "circuit", "n": n, "ops": ops, "mark": mark, "schedules": scheds, "sseed": seed, "foreign_first": r.random() < 0.25}
 
 
 def gen_xunitary(r, seed):
@@ -239,6 +239,20 @@ def execute(script, w):
     import strawberryfields.compilers.xunitary as xumod
 
     specops = script["ops"]
+    if script.get("foreign_first") and len(specops) > 1:
+        # the same functions were applied to another circuit (the reversed op list where legal, else a prefix) earlier in the process
+        w.fault("foreign_activity:reorder_other_circuit")
+        try:
+            fprog = build_program({"n": script["n"], "ops": [o for o in specops[: max(1, len(specops) // 2)]]})
+            pu.DAG_to_list(pu.list_to_DAG(fprog.circuit))
+            pu.group_operations(fprog.circuit, lambda op: isinstance(op, sfops.MeasureFock))
+            pu.optimize_circuit(fprog.circuit)
+            try:
+                fprog.compile(compiler="gbs")
+            except pu.CircuitError:
+                pass
+        except Exception as ex:  # noqa
+            w.log("foreign_error", exc=type(ex).__name__, msg=str(ex)[:200])
     prog = build_program({"n": script["n"], "ops": specops})
     seq = list(prog.circuit)
     if len(seq) != len(specops):
